@@ -60,6 +60,61 @@ def _np_mean(I, args, kw):
     return VUn(f(m.e), TUn("Vec"))
 
 
+def _defaultdict(I, args, kw):
+    """collections.defaultdict(float) / defaultdict(int): an empty dict whose missing keys read as 0 (and are inserted
+    by the read).  The element types come from the declared local type of the variable it is assigned to."""
+    if len(args) != 1 or not isinstance(args[0], VClass) or args[0].name not in ("float", "int"):
+        raise Unsupported("defaultdict with a factory other than float/int")
+    d = VDictRec({})
+    d.default_value = VReal(0) if args[0].name == "float" else VInt(0)
+    return d
+
+
+def _heappush(I, args, kw):
+    """heapq.heappush(h, x): trusted multiset model -- the heap list is kept as a list in *some* order (the heap
+    layout is never observed except through heappop / nsmallest / len): x is added."""
+    h = I.force(args[0])
+    if not isinstance(h, VSeq):
+        raise Unsupported("heappush on %s (declare the heap's element type)" % type(h).__name__)
+    I.ver.note_assumption("heapq: the heap is a multiset kept in a list; heappop removes and returns a minimum "
+                          "(python tuple order), heappush adds, nsmallest(n, h) = the n least in ascending order")
+    h.arr = z3.Store(h.arr, h.n, unwrap(args[1], h.et))
+    h.n = z3.simplify(h.n + 1)
+    h.writeback()
+    return VNone()
+
+
+def _heappop(I, args, kw):
+    """heapq.heappop(h): IndexError on an empty heap; otherwise removes one occurrence of a least element (tuple
+    order) and returns it; every other element stays (named array, pointwise facts with triggers)."""
+    h = I.force(args[0])
+    if not isinstance(h, VSeq):
+        raise Unsupported("heappop on %s" % type(h).__name__)
+    I.require_defined(h.n > 0, "IndexError", "index out of range")
+    p = I.path
+    m = p.fresh("heap_min_at", z3.IntSort())
+    i = z3.Int("hp_i")
+    old, n0 = h.arr, h.n
+    p.assume(z3.And(0 <= m, m < n0))
+    least = h.et.wrap(z3.Select(old, m))
+    el = h.et.wrap(z3.Select(old, i))
+    p.assume(z3.ForAll([i], z3.Implies(z3.And(0 <= i, i < n0), I.lt(least, el, False)), patterns=[z3.Select(old, i)]))
+    res = I.fresh_value(TList(h.et), "heap")
+    p.assume(res.n == n0 - 1)
+    p.assume(z3.ForAll([i], z3.Implies(z3.And(0 <= i, i < res.n),
+                                      z3.Select(res.arr, i) == z3.If(i < m, z3.Select(old, i), z3.Select(old, i + 1))),
+                       patterns=[z3.Select(res.arr, i)]))
+    p.assume(z3.ForAll([i], z3.Implies(z3.And(0 <= i, i < n0, i != m),
+                                      z3.Select(res.arr, z3.If(i < m, i, i - 1)) == z3.Select(old, i)),
+                       patterns=[z3.Select(old, i)]))
+    h.arr, h.n = res.arr, res.n
+    h.writeback()
+    g = getattr(I, "ghost_env", None)
+    if g is not None and "heap_pops" in g.vars:
+        g.vars["heap_pops"] = VInt(to_int(g.vars["heap_pops"]) + 1)     # ghost: number of heappop calls so far
+    return least
+
+
 def _timedelta(I, args, kw):
     """datetime.timedelta(days=, seconds=): a duration in seconds on the real line.  Datetimes are modelled as
     real numbers (UTC seconds); datetime - timedelta and datetime comparisons are then ordinary arithmetic."""
@@ -157,6 +212,9 @@ def _thread_pool_executor(I, args, kw):
 
 TABLE = {
     ("numpy", "asarray"): _np_asarray,
+    ("collections", "defaultdict"): _defaultdict,
+    ("heapq", "heappush"): _heappush,
+    ("heapq", "heappop"): _heappop,
     ("numpy", "stack"): _np_stack,
     ("numpy", "mean"): _np_mean,
     ("datetime", "timedelta"): _timedelta,
